@@ -747,14 +747,17 @@ class ExcelInPython:
         return len(empty)
 
     def _ifs(self, flatten_list: List):
-        err_value = self._find_error_in_list(flatten_list)
-        if err_value:
-            return err_value
+        # Условия и значения могут быть функциями: вычисляются по порядку и только пока не найдено истинное условие
+        get = lambda item: item() if callable(item) else item
 
         index = 0
         while index < len(flatten_list):
-            if flatten_list[index]:
-                return flatten_list[index + 1]
+            condition = get(flatten_list[index])
+            err_value = self._find_error_in_list([condition])
+            if err_value:
+                return err_value
+            if condition:
+                return get(flatten_list[index + 1])
             index += 2
 
         return '#N/A'
